@@ -416,6 +416,39 @@ def gen_prefix_config(rng, root, words):
 
 
 # (no two paths may be equal up to case: the go tool refuses such a build with "case-insensitive import collision")
+SIBLING_FAMILY = ["sv", "sv/api", "sv/api/internal", "sv/api/internal/deep", "sv/api/internal/deep/er", "sv/api/x",
+                  "sv/api-v2", "sv/api-v2/sub", "sv/api.v1", "sv/api+x", "sv/api_v2", "sv/api_v2/sub", "sv/api0"]
+SIBLINGS = ["sv/api-v2", "sv/api.v1", "sv/api+x", "sv/api_v2", "sv/api0"]
+
+
+def gen_sibling_config(rng, root, words):
+    """sv/api (outer) and sv/api/internal (inner) recursive with different settings, plus recursive siblings
+    api-v2, api.v1, api+x (sort between api and api/...), api_v2, api0 (sort after); sometimes sv itself."""
+    keep = {"t": "ok", "p": {"bos": True, "body": ("lit", "Keep"), "eos": False}}
+    drop = {"t": "ok", "p": {"bos": True, "body": ("lit", "Drop"), "eos": False}}
+    pkgs = {}
+
+    def add(rel, mark, kind):
+        c = empty_cfg(); c["rec"] = True; c["mark"] = mark
+        if kind == "all": c["all"] = True
+        elif kind == "keep": c["all"] = False; c["inc"] = keep
+        elif kind == "drop": c["all"] = False; c["inc"] = drop
+        else: c["all"] = False; c["inc"] = {"t": "ok", "p": {"bos": False, "body": ("lit", "p"), "eos": False}}; c["exc"] = drop
+        pkgs[path_of(rel)] = {"null": False, "cfg": c, "ifaces": {}}
+    kinds = ["all", "keep", "drop", "keep_exc"]
+    ko = rng.choice(kinds)
+    add("sv/api", "_Outer", ko)
+    add("sv/api/internal", "_Inner", rng.choice([k for k in kinds if k != ko]))
+    sibs = rng.sample(SIBLINGS, rng.randint(1, 3))
+    if rng.random() < 0.8 and not any(x in sibs for x in SIBLINGS[:3]): sibs.append(rng.choice(SIBLINGS[:3]))
+    for j, rel in enumerate(sibs):
+        add(rel, "_S%d" % j, rng.choice(kinds))
+    if rng.random() < 0.3: add("sv", "_Sv", rng.choice(kinds))
+    if rng.random() < 0.2: add("sv/api/internal/deep", "_Deep", rng.choice(kinds))
+    root["rec"] = None
+    return pkgs
+
+
 CASE_FAMILY = ["cx", "cx/API", "cx/v2/api", "cx/Legacy", "cx/v2/legacy", "cx/legacyx", "cx/internal", "cx/Internal/db",
                "cx/store/DB", "cx/pkg/db"]
 
@@ -514,6 +547,12 @@ def gen_tree(rng):
             {"name": "Keep" + tag, "form": "iface", "file": "a.go"}, {"name": "Drop" + tag, "form": "iface", "file": "a.go"}]
             + ([{"name": "Opt" + tag, "form": "struct", "file": "b.go"}] if rng.random() < 0.3 else [])})
         add_generated(rng, nodes[-1]["decls"], p=0.3)
+    # siblings whose name is the package's name followed by a byte smaller ('+' '-' '.') or larger ('0' '_') than '/':
+    # in sorted order they stand between the package and its sub-packages, or after them
+    for rel in SIBLING_FAMILY:
+        tag = re.sub(r"[^A-Za-z0-9]", "", rel[3:]).capitalize() or "Top"
+        nodes.append({"rel": rel, "class": "go", "decls": [
+            {"name": "Keep" + tag, "form": "iface", "file": "a.go"}, {"name": "Drop" + tag, "form": "iface", "file": "a.go"}]})
     # directories that differ from each other (and from the exclusion patterns) only in letter case
     for rel in CASE_FAMILY:
         tag = re.sub(r"[^A-Za-z]", "", rel[2:]) or "Top"
@@ -586,9 +625,25 @@ def gen_ifaces(rng, node, tags, p_listed):
         k = rng.random()
         if k < 0.25: out[n] = None
         else:
-            ne = rng.choice([0, 0, 1, 2, 3])
-            out[n] = {"mark": rng.choice([None, "_i" + n]), "entries": [rng.choice([None, "_e%d" % j]) for j in range(ne)]}
+            out[n] = gen_icfg(rng, n, many=rng.random() < 0.35)
     return out
+
+
+def gen_icfg(rng, n, many=False):
+    """`configs` list of an interface.  entries[j] = structname mark or None; forms[j] says how an entry without a
+    mark is written: "null" (`~`), "empty" (`{}`), "file" (`{filename: mocks_j.txt}`).  Marks may repeat
+    (identical entries).  One mock per entry, whatever the entries look like."""
+    ne = rng.choice([2, 3, 3, 4]) if many else rng.choice([0, 0, 1, 2, 3])
+    entries, forms = [], []
+    style = rng.random()
+    for j in range(ne):
+        if style < 0.3: m, f = None, "null"                                   # [~, ~, ~]
+        elif style < 0.5: m, f = (None, "null") if j != 1 else ("_e1", "file")   # [null, {structname: X}, null]
+        else:
+            m = rng.choice([None, None, "_e%d" % j, "_same"])
+            f = rng.choice(["null", "null", "empty", "file"])
+        entries.append(m); forms.append(f)
+    return {"mark": rng.choice([None, "_i" + n]), "entries": entries, "forms": forms}
 
 
 def gen_config(rng, nodes, shape=None):
@@ -611,6 +666,10 @@ def gen_config(rng, nodes, shape=None):
     elif shape in ("nested", "explicit_child"): chosen = chain[:1] + rng.sample(chain[1:], min(1, len(chain) - 1))
     elif shape == "triple": chosen = chain[:1] + rng.sample(chain[1:], min(2, len(chain) - 1))
     elif shape == "rootrec": chosen = rng.sample([n["rel"] for n in gos], min(len(gos), 2)); root["rec"] = True
+    elif shape == "sorted_siblings":
+        pkgs = gen_sibling_config(rng, root, words)
+        order = list(pkgs); rng.shuffle(order)
+        return {"root": root, "tags": tags, "pkgs": pkgs, "order": order, "shape": shape}
     elif shape == "exsub_flags":
         root["rec"] = None
         pkgs = gen_exsub_flag_config(rng, root)
@@ -691,7 +750,7 @@ def table_cases(rng):
                             # the opposite at root: the package level must win
                             root["all"] = (not allv) if allv is not None else None
                             root["inc"] = lit("bar") if iv is not None else None
-                        ifs = {"bar": {"mark": None, "entries": [None, "_e1"]}} if listed else {}
+                        ifs = {"bar": {"mark": None, "entries": [None, "_e1", None], "forms": ["null", "file", "null"]}} if listed else {}
                         cfg = {"root": root, "tags": [], "pkgs": {path_of("p0"): {"null": False, "cfg": c, "ifaces": ifs}},
                                "order": [path_of("p0")], "shape": "table"}
                         out.append({"nodes": [node], "config": cfg,
@@ -745,7 +804,9 @@ def write_config(case, root, outdir):
                 v = {}
                 if ic["mark"] is not None: v["config"] = {"structname": "{{.InterfaceName}}" + ic["mark"]}
                 if ic["entries"]:
-                    v["configs"] = [({"structname": "{{.InterfaceName}}" + m} if m is not None else {"filename": "mocks_%d.txt" % j})
+                    forms = ic.get("forms") or ["file"] * len(ic["entries"])
+                    v["configs"] = [({"structname": "{{.InterfaceName}}" + m} if m is not None else
+                                     None if forms[j] == "null" else {} if forms[j] == "empty" else {"filename": "mocks_%d.txt" % j})
                                     for j, m in enumerate(ic["entries"])]
                 e["interfaces"][n] = v or None
         pk[path] = e
@@ -944,6 +1005,14 @@ def reductions(case):
             c = copy.deepcopy(case)
             del c["config"]["pkgs"][p]["ifaces"][n]
             yield c
+            ic = v["ifaces"][n]
+            if ic and len(ic["entries"]) > 2:
+                for j in range(len(ic["entries"])):
+                    c = copy.deepcopy(case)
+                    x = c["config"]["pkgs"][p]["ifaces"][n]
+                    del x["entries"][j]
+                    if x.get("forms"): del x["forms"][j]
+                    yield c
         for k in ("all", "inc", "exc", "rec", "exsub", "mark"):
             if v["cfg"][k] is not None:
                 c = copy.deepcopy(case)
@@ -1006,14 +1075,14 @@ def gen_cases(ctx):
     cases = []
     tab = table_cases(rng)
     if not ctx.thorough():
-        tab = rng.sample(tab, 96)
+        tab = rng.sample(tab, 84)
     cases += tab
-    ntrees = 140 if ctx.thorough() else 13
-    shapes = ["flat", "single", "nested", "prefix_nested", "exsub_flags", "twins_explicit", "twins_recursive", "triple", "explicit_child",
-              "rootrec", "prefix_nested", "exsub_flags", "nested", "random"]
+    ntrees = 130 if ctx.thorough() else 10
+    shapes = ["flat", "single", "nested", "prefix_nested", "exsub_flags", "sorted_siblings", "twins_explicit", "twins_recursive", "triple",
+              "explicit_child", "rootrec", "prefix_nested", "exsub_flags", "sorted_siblings", "nested", "random"]
     for t in range(ntrees):
         nodes = gen_tree(rng)
-        for k in range(14 if ctx.thorough() else 10):
+        for k in range(16 if ctx.thorough() else 11):
             cfg = gen_config(rng, nodes, shape=shapes[k % len(shapes)])
             cases.append({"nodes": nodes, "config": cfg, "label": "tree%d:%s" % (t, cfg["shape"])})
     return cases
@@ -1036,6 +1105,8 @@ def check(ctx, only=None):
 
     def reps(c):     # order-dependent behaviour shows only sometimes: run recursion shapes more than once
         nrec = sum(1 for p in c["config"]["pkgs"].values() if p["cfg"]["rec"]) + (2 if c["config"]["root"]["rec"] else 0)
+        if only is None and c["config"]["shape"] == "sorted_siblings" and not c.get("label", "").startswith("corpus:"):
+            return 1          # many recursive packages = many `go list` calls per run; the corpus variants are repeated
         return (5 if only is not None else 3) if nrec >= 2 else 1
     jobs = [(i, r) for i, c in enumerate(cases) for r in range(reps(c))]
     results = pmap(lambda j: run_impl(ctx, cases[j[0]], roots[j[0]], "c%d_%d" % j), jobs)
